@@ -3,6 +3,7 @@ package main
 // C16: stop groups, frontend life-cycles and reload against the real code.
 
 import (
+	"github.com/chihaya/chihaya/pkg/timecache"
 	"crypto/tls"
 	"path/filepath"
 	"os"
@@ -99,6 +100,35 @@ func grpStop(c *Ctx, spec string) {
 		case <-time.After(5 * time.Second):
 			return "STOP-DID-NOT-COMPLETE"
 		}
+	}()
+	c.Emit(op, obs)
+}
+
+// life.store_stop: the memory store's Stop waits for its own expiry pass: with a pass parked on a shard lock, Stop
+// stays pending; once the lock is released it completes.
+func lifeStoreStop(c *Ctx) {
+	op := "life.store_stop kind=memory"
+	c.Begin(op)
+	obs := func() (o string) {
+		defer func() {
+			if p := recover(); p != nil {
+				o = "PANIC " + strings.Fields(fmt.Sprint(p))[0]
+			}
+		}()
+		timecache.VerifSetClock(time.Now().UnixNano())
+		ps, err := memory.New(memory.Config{ShardCount: 1, PeerLifetime: time.Hour, GarbageCollectionInterval: 20 * time.Millisecond, PrometheusReportingInterval: time.Hour})
+		if err != nil {
+			return "new-failed"
+		}
+		p := bittorrent.Peer{ID: bittorrent.PeerIDFromString("-VF0001-000000000001"), Port: 6881, IP: bittorrent.IP{IP: []byte{10, 0, 0, 1}, AddressFamily: bittorrent.IPv4}}
+		_ = ps.PutSeeder(bittorrent.InfoHashFromString("01234567890123456789"), p)
+		release := memory.VerifHoldShard(ps, 0)
+		time.Sleep(300 * time.Millisecond) // an expiry pass has started and is parked on the shard lock
+		res := ps.Stop()
+		early, _ := waitStop(res, 200*time.Millisecond)
+		release()
+		done, _ := waitStop(res, 3*time.Second)
+		return fmt.Sprintf("stop_pending_while_pass_parked=%s stopped=%s", b01(!early), b01(early || done))
 	}()
 	c.Emit(op, obs)
 }
@@ -557,6 +587,8 @@ func replayC16(c *Ctx, op string, a map[string]string) {
 	case "life.binary":
 		lifeBinary(c, a["scenario"])
 		cleanupBinary()
+	case "life.store_stop":
+		lifeStoreStop(c)
 	case "life.logic_stop":
 		np, _ := strconv.Atoi(a["npre"])
 		logicStop(c, a["members"], np)
@@ -616,6 +648,8 @@ func runC16(c *Ctx) {
 		lifeBinary(c, sc)
 	}
 	cleanupBinary()
+	lifeStoreStop(c)
+	lifeStoreStop(c)
 	k := c.N / 40
 	if k < 3 {
 		k = 3
